@@ -40,6 +40,9 @@ type Rec struct {
 	Shape      string   // cases with equal Shape count once in distinct_nontrivial
 	Labels     []string // classification counters
 	Excluded   int      // inputs steered away from because of an open finding
+	// AlsoKnown: keys of further failures seen in the same case that are listed as open findings (a case can run
+	// into several; the returned Failure is only the first)
+	AlsoKnown []string
 }
 
 func (r *Rec) Label(l string) { r.Labels = append(r.Labels, l) }
@@ -294,6 +297,27 @@ func (ck *Check) Main(t *testing.T) {
 	})
 
 	// 1. witnesses of open findings and regression inputs of fixed ones
+	shown := map[string]bool{} // open findings whose KNOWN-FINDING line was printed
+	show := func(key string) {
+		k, ok := open[key]
+		if !ok || shown[key] || k.Part != ck.Part {
+			return
+		}
+		shown[key] = true
+		line := fmt.Sprintf("KNOWN-FINDING: property=%s %s", ck.ID, k.What)
+		fmt.Println(line)
+		st.sh.KnownShown = append(st.sh.KnownShown, line)
+	}
+	also := func(rec *Rec) {
+		st.mu.Lock()
+		defer st.mu.Unlock()
+		for _, key := range rec.AlsoKnown {
+			if _, ok := open[key]; ok {
+				st.sh.Known[key]++
+				show(key)
+			}
+		}
+	}
 	for _, k := range known {
 		if k.Witness == "" || k.Part != ck.Part {
 			continue
@@ -306,17 +330,23 @@ func (ck *Check) Main(t *testing.T) {
 		f, rec := runOne(c)
 		st.account(c, rec)
 		st.sh.Replayed++
+		also(rec)
+		if f == nil && k.Status == "open" && shown[k.Key] {
+			continue
+		}
 		switch {
 		case f == nil:
 			// a fixed finding stays fixed; an open one no longer reproduces with this witness
+			if k.Status == "open" {
+				fmt.Printf("NOTE: the witness %s of the open finding [%s] does not fail any more\n", k.Witness, k.Key)
+			}
 		case k.Status == "open" && f.Key == k.Key:
-			line := fmt.Sprintf("KNOWN-FINDING: property=%s %s", ck.ID, k.What)
-			fmt.Println(line)
-			st.sh.KnownShown = append(st.sh.KnownShown, line)
+			show(k.Key)
 		default:
 			if _, ok := open[f.Key]; ok {
 				// the witness of one finding also runs into another recorded, still open finding
 				st.sh.Known[f.Key]++
+				show(f.Key)
 				continue
 			}
 			failed = true
@@ -369,11 +399,17 @@ func (ck *Check) Main(t *testing.T) {
 		st.mu.Lock()
 		st.lastSample = c2
 		st.mu.Unlock()
+		if f == nil {
+			also(rec)
+		}
 		if f != nil {
-			if _, ok := open[f.Key]; ok {
+			if k, ok := open[f.Key]; ok {
 				st.mu.Lock()
 				st.sh.Known[f.Key]++
+				_ = k
+				show(f.Key) // the listed finding met by a generated input although its stored witness did not show it
 				st.mu.Unlock()
+				also(rec)
 				return
 			}
 			st.mu.Lock()
